@@ -104,6 +104,13 @@ def run_C15(chk):
             lines.append('bt %s %d' % (zid, t)); meta.append(('bt', (off, t)))
         lines.append('nt %s %d' % (zid, rng.choice(INSTANTS))); meta.append(('tr', off))
         lines.append('pt %s %d' % (zid, rng.choice(INSTANTS))); meta.append(('tr', off))
+        # the built-in table has yearly entries that change nothing (2015…2025): a transition query right after a lookup in the same year
+        for yy in rng.sample(range(2015, 2026), 3):
+            tt = C.day_num(yy, 1, 1) * 86400
+            lines.append('bt %s %d' % (zid, tt + 100)); meta.append(('bt', (off, tt + 100)))
+            lines.append('nt %s %d' % (zid, tt + 200)); meta.append(('tr', off))
+            lines.append('bt %s %d' % (zid, tt + 300)); meta.append(('bt', (off, tt + 300)))
+            lines.append('pt %s %d' % (zid, tt + 86400 * 400)); meta.append(('tr', off))
         lines.append('drop %s' % zid); meta.append(('drop', off))
     # name mutations
     for _ in range(100000 if scale == 'quick' else 1500000):
